@@ -3,7 +3,8 @@ open Pylx
 
 /-- every model file contributes one handler; the first that recognises the operation answers -/
 def handlers : List (List String → Option String) := [
-  handleLine
+  handleLine,
+  handleTok
 ]
 
 def handle (fields : List String) : String :=
